@@ -210,7 +210,8 @@ pub fn prim(store: &LpgStore, weight_property: Option<&str>, start: Option<NodeI
         for (neighbor, edge_id) in store.edges_from(other, Direction::Outgoing) {
             if neighbor == start_node {
                 let weight = extract_weight(store, edge_id, weight_property);
-                heap.push(MinScored::new(weight, (other, start_node, edge_id)));
+                // (tree node, outside node): the pop below adds the second one to the tree
+                heap.push(MinScored::new(weight, (start_node, other, edge_id)));
             }
         }
     }
@@ -240,7 +241,7 @@ pub fn prim(store: &LpgStore, weight_property: Option<&str>, start: Option<NodeI
                 for (neighbor, new_edge_id) in store.edges_from(other, Direction::Outgoing) {
                     if neighbor == dst {
                         let new_weight = extract_weight(store, new_edge_id, weight_property);
-                        heap.push(MinScored::new(new_weight, (other, dst, new_edge_id)));
+                        heap.push(MinScored::new(new_weight, (dst, other, new_edge_id)));
                     }
                 }
             }
